@@ -31,7 +31,7 @@ type mut struct {
 
 func genMut(t *rapid.T, label string) mut {
 	return mut{
-		Op:  rapid.SampledFrom([]int{0, 1, 1, 1, 2, 3, 3, 4, 4, 5, 6, 6, 7, 8, 9, 10, 10, 10, 11, 11}).Draw(t, label+"op"),
+		Op:  rapid.SampledFrom([]int{0, 1, 1, 1, 2, 3, 3, 4, 4, 5, 6, 6, 7, 8, 9, 10, 10, 10, 11, 11, 13, 13, 14}).Draw(t, label+"op"),
 		A:   rapid.IntRange(0, 400).Draw(t, label+"a"),
 		B:   rapid.IntRange(0, 255).Draw(t, label+"b"),
 		Raw: rapid.SliceOfN(rapid.Byte(), 0, 40).Draw(t, label+"raw"),
@@ -85,6 +85,14 @@ func (m mut) apply(base, other []byte) []byte {
 		for i := m.A % (n + 1); i < n; i++ {
 			b[i] = 0
 		}
+	case 14: // the base frame turned into a synchroniser *response* with a member list that differs per A
+		if n > 0 {
+			b[0] = 3
+		}
+		for i := 0; i <= m.A%16; i++ {
+			b = append(b, byte(m.A), 0x77)
+		}
+		return b
 	case 10:
 		return append([]byte(nil), hostileConstants[m.A%len(hostileConstants)]...)
 	case 11:
@@ -328,6 +336,14 @@ func runC10Stack(c c10StackCase) *vh.Outcome {
 		mayAbort := false
 		var injections []c10Injection
 		for _, in := range c.Inj {
+			if in.Mut.Op == 13 { // burst: many different responses derived from one valid frame of one member
+				for i := 0; i < 10; i++ {
+					x := in
+					x.Mut = mut{Op: 14, A: i}
+					injections = append(injections, x)
+				}
+				continue
+			}
 			if in.Mut.Op == 12 { // batch: every hostile constant in turn
 				for i := range hostileConstants {
 					x := in
@@ -575,6 +591,15 @@ func TestC10Hostile(t *testing.T) {
 									Inj: []c10Injection{{Base: base * 37, Mut: mut{Op: 12}, Type: ty, Source: src}}}
 								if !yield(c) {
 									return
+								}
+								if ty == 1 && src == 0 { // a burst of different responses built from live synchroniser frames
+									for b2 := 0; b2 < 4; b2++ {
+										cb := c10StackCase{Silent: silent, Backend: be, Op: "keygen", State: 1, K: k,
+											Inj: []c10Injection{{Base: base*37 + b2, Mut: mut{Op: 13}, Type: 0, Source: 0}}}
+										if !yield(cb) {
+											return
+										}
+									}
 								}
 							}
 						}
